@@ -269,8 +269,23 @@ class CloneModel:
         return {"?"}
 
 
+def _is_container_slot(P, cname, slot):
+    from ..kinds import FIELD_TYPES
+    for c in P.ir_mro(cname):
+        t = FIELD_TYPES.get((c.name, slot))
+        if t is not None:
+            return isinstance(t, tuple) and t and t[0] in ("list", "set", "dict")
+    return False
+
+
+def _aliases_source(v):
+    """the value is the source's container itself (a bare attribute path from self), not a copy"""
+    return isinstance(v, ast.Attribute) and norm(v).startswith("self.")
+
+
 def _l1_l2_l4(ctx, R, CM):
     P = ctx.P
+    R.rule("L7", "no container aliasing: a list / set / dict slot of the copy is never assigned the source's container object itself")
     R.rule("L1", "slot coverage: every slot of an IR class is assigned in its _clone (or reset by the constructor and not "
                  "data-carrying); data-carrying scalars and _data are copied from the source")
     R.rule("L2", "no aliasing of data: _data is assigned from deepcopy(self._data)")
@@ -335,9 +350,14 @@ def _l1_l2_l4(ctx, R, CM):
                               "%s assigns the copy's _data from `%s`: nested property values stay shared, so later edits of one netlist show in the other" % (f.qualname, short(v, 40)))
             elif slot == "_is_top_instance":
                 continue  # decided at the netlist level below
+            elif slot in assigned and _is_container_slot(P, cname, slot) and _aliases_source(assigned[slot]):
+                R.bad("L7", "%s|%s" % (f.key, slot), f.loc(), "%s gives the copy the source's own container (`%s = %s`): the two objects share "
+                      "one %s, so an edit of either (including the clone's own clean-up phase) changes the other" % (f.qualname, slot, short(assigned[slot], 40), slot))
             else:
                 if slot in assigned:
                     R.ok("L1", inst, f.loc())
+                    if _is_container_slot(P, cname, slot):
+                        R.ok("L7", inst + " is a fresh container", f.loc())
                 else:
                     # acceptable when the constructor initialises it to the empty/None value
                     init = P.ir_lookup_method(cname, "__init__")
@@ -545,6 +565,23 @@ def _l6(ctx, R, CM):
     R.count("orchestrating _clone methods (L6)", n)
 
 
+_OWNS = {"Netlist": {"Library"}, "Library": {"Definition"}, "Definition": {"Port", "Cable", "Instance"}, "Port": {"InnerPin"},
+         "Cable": {"Wire"}, "Instance": {"OuterPin"}, "Wire": set(), "InnerPin": set(), "OuterPin": set()}
+
+
+def _closure(c):
+    out, todo = {c}, [c]
+    while todo:
+        for d in _OWNS[todo.pop()]:
+            if d not in out:
+                out.add(d)
+                todo.append(d)
+    return out
+
+
+_OWNS_CLOSURE = {c: _closure(c) for c in _OWNS}
+
+
 def _l5(ctx, R, CM):
     R.rule("L5", "source immutability: _clone writes nothing reachable from self; over a whole public clone() the only writes to "
                  "objects that are not clones are X._references.add(<clone>), the documented bookkeeping")
@@ -589,6 +626,31 @@ def _l5(ctx, R, CM):
                 else:
                     R.bad("L5", "%s|cross %s %s" % (f.key, ev.field, ev.op), f.loc(ev.stmt),
                           "%s writes `%s` on an object reached through a pointer that leaves the clone; the only documented effect on shared objects is reference-set insertion" % (f.qualname, short(ev.stmt, 60)))
+    # ownership by kind: a clone-family method of class X writes only objects X owns (transitively) — anything else is shared
+    # with the source (e.g. the inner pins that key an instance's pin map belong to the referenced definition)
+    from ..kinds import kinds_of, Env
+    m = 0
+    for k, f in sorted(CM.fam.items()):
+        if f.cls is None or f.cls.name not in _OWNS_CLOSURE:
+            continue
+        dom = _OWNS_CLOSURE[f.cls.name]
+        fe = M.events(f)
+        for node, evs in fe.by_node.items():
+            for ev in evs:
+                if ev.kind != "write" or ev.recv is None:
+                    continue
+                ks = set(kinds_of(fe.ty.type_of(ev.recv, fe.ty.state.get(node, Env())))) - {"None"}
+                if not ks:
+                    continue
+                m += 1
+                if ks & dom or (ev.field == "_references" and ev.op == "add"):
+                    R.ok("L5", "%s: `%s` stays inside what a %s owns" % (f.qualname, short(ev.stmt, 40), f.cls.name), f.loc(ev.stmt))
+                    continue
+                R.bad("L5", "%s|foreign %s %s" % (f.key, ev.field, ev.op), f.loc(ev.stmt),
+                      "%s writes `%s` on a %s, which a %s does not own: the object is shared with the source of the clone, so cloning "
+                      "modifies the original" % (f.qualname, short(ev.stmt, 60), "/".join(sorted(ks)), f.cls.name))
+    R.count("L5 kind-typed writes", m)
+    R.floor("L5 kind-typed writes", 20)
     R.count("L5 sites", n)
     R.floor("L5 sites", 9)
 
